@@ -424,6 +424,21 @@ func upBodyInner(u upCase, oracle string) vsched.Body {
 				b.send(Pkt{Type: '5'})
 				sentUpgrade = true
 			})
+		case "third":
+			// while the first candidate's attempt is in progress (probed, no upgrade packet yet) a second
+			// candidate arrives and is refused, then a third one
+			vsched.GoNamed("candidates-2-3", func() {
+				w.BeginAction()
+				vsched.Sleep(20 * time.Millisecond)
+				for i := 0; i < 2; i++ {
+					c := dialCandidate(w, u.cand, s.pc.Sid)
+					cands = append(cands, c)
+					if c.waitOpen() {
+						c.send(Pkt{Type: '2', Data: []byte("probe")})
+					}
+					vsched.Sleep(20 * time.Millisecond)
+				}
+			})
 		case "second":
 			vsched.GoNamed("candidate2", func() {
 				w.BeginAction()
@@ -439,7 +454,7 @@ func upBodyInner(u upCase, oracle string) vsched.Body {
 		x.Run(x.Now() + 300*time.Millisecond)
 		x.Frozen = true
 		x.Run(x.Now() + 1700*time.Millisecond)
-		if u.context == "second" {
+		if u.context == "second" || u.context == "third" {
 			n := 0
 			for _, c := range cands {
 				if c.gotProbePong() {
@@ -560,8 +575,8 @@ func upBodyInner(u upCase, oracle string) vsched.Body {
 			x.Outcome = fmt.Sprintf("closed switched=%v", switched)
 			return
 		}
-		if u.context == "second" {
-			// two candidates: at most one may win; the session must survive
+		if u.context == "second" || u.context == "third" {
+			// several candidates: at most one may win; the session must survive
 			exp = "either"
 		}
 		if u.context == "stale-timer" {
@@ -752,6 +767,9 @@ func init() {
 			for _, pending := range []bool{true, false} {
 				out = append(out, upCase{cand, pending, "C", ""}, upCase{cand, pending, "C", "send"}, upCase{cand, pending, "C", "close"}, upCase{cand, pending, "C", "second"})
 				out = append(out, upCase{cand, pending, "L", ""}, upCase{cand, pending, "L", "send"})
+				if pending {
+					out = append(out, upCase{cand, pending, "P", "third"})
+				}
 				for _, wd := range []string{"PmU", "PnU", "PgU", "PxU", "PpU", "PPU", "PUn", "mPU", "PUg"} {
 					out = append(out, upCase{cand, pending, wd, ""})
 				}
